@@ -408,6 +408,14 @@ def run_C20(R):
         for mname in ('default', 'amr'):
             R.check('C20.cli', {'on': on, 'model': mname, 'fmt': R.rnd.choice(list(FORMATS)), 'via': 'stdin',
                                 'texts': [tricky]})
+    # roles inverted more than once, among them roles the model normalises (canonicalisation has to reach
+    # its fixed point in one pass for the output to be a normal form)
+    over = ('(a / alpha :mod-of-of-of (b / beta) :domain-of-of (c / gamma :mod-of d) :polarity-of-of - '
+            ':ARG0-of-of-of (e / eps) :domain-of-of-of (f / phi))\n')
+    for on in (['canon'], ['canon', 'rearr'], ['canon', 'reify'], []):
+        for mname in ('amr', 'default', 'noop', 'file'):
+            R.check('C20.cli', {'on': on, 'model': mname, 'fmt': R.rnd.choice(list(FORMATS)), 'via': 'stdin',
+                                'texts': [over]})
     # F13 witness class: reconfigure must use the selected model
     R.check('C20.cli', {'on': ['reconf'], 'model': 'amr', 'fmt': 'std', 'via': 'stdin',
                         'texts': ['(a / alpha :consist-of-of (g / gamma) :ARG1-of (b / beta))\n']})
